@@ -311,6 +311,8 @@ def solve(res, caps):
             if not m:
                 continue
             key = '%s.%s' % (m.group(1), m.group(2))
+            if key.startswith(('vf_havoc_c.', 'vf_libc_')):
+                continue   # prelude loops have their own fixed bounds (CBMC_BASE); a failure there is reported, not deepened
             cur = loopb.get(key, unwind)
             if cur < caps['max_unwind']:
                 loopb[key] = min(caps['max_unwind'], max(cur + 2, cur * 2 if rounds > 1 else cur + 2))
